@@ -100,6 +100,7 @@ class Trace:
         self.data_ids = {}
         self.last_sock = None
         self.pokes = []            # (time, record id): cache entries the scenario planted itself
+        self.call_no = 0           # number of `Zeroconf.async_send` calls so far: datagrams of one call are one `DNSOutgoing`
         # watchdog: a check must terminate whatever the code under test does
         self.dead = None           # reason the host was silenced, if it was
         self.max_blocks = 4000     # atomic blocks per scenario
@@ -206,6 +207,7 @@ class Trace:
             def handle_assembled_query(self_, packets, addr, port, transport, v6):
                 if self_.zc is zc and tr.cur is not None:
                     seen = []
+                    seen_blind = []
                     for i, r in enumerate(tr.uni.recs):
                         # the cached copy of this record, read from the store itself under the lower-cased name (what "the host
                         # saw multicast" means; not through `async_get_unique`, which is code under test)
@@ -213,21 +215,57 @@ class Trace:
                         e = store.get(r) if store is not None else None
                         if e is not None:
                             seen.append((i, int(e.created), int(e.ttl)))
-                    tr.cur["asm"] = dict(seen=seen, addr=addr, port=port, npkts=len(packets), first_now=int(packets[0].now) if packets else None,
+                        # ... and ignoring the scope id an IPv6 socket stamps on the address records it receives (the host's own records
+                        # have none): the freshest cached record that is the same on the wire
+                        eb = e
+                        if e is None and store is not None and getattr(r, "address", None) is not None:
+                            # no exact copy: the freshest copy heard on an IPv6 socket (same record on the wire, another scope id) -- what
+                            # a scope-blind look-up (notes/fixes/D29-candidate.diff) finds
+                            same = [x for x in store if x.type == r.type and x.class_ == r.class_ and getattr(x, "address", None) == r.address]
+                            if same:
+                                eb = max(same, key=lambda x: x.created)
+                        if eb is not None:
+                            seen_blind.append((i, int(eb.created), int(eb.ttl)))
+                    # what the code's own look-up finds: the scope-blind view on a tree with the candidate repair of D29
+                    # (`_QueryResponse._get_unique_ignoring_scope`), the exact-match view otherwise
+                    if hasattr(qh._QueryResponse, "_get_unique_ignoring_scope"):
+                        seen = seen_blind
+                    tr.cur["asm"] = dict(seen=seen, seen_blind=seen_blind, addr=addr, port=port, npkts=len(packets), first_now=int(packets[0].now) if packets else None,
                                          last_now=int(packets[-1].now) if packets else None, datas=[bytes(p.data) for p in packets])
                 return orig(self_, packets, addr, port, transport, v6)
             return handle_assembled_query
 
+        def mk_rm(orig):
+            # `async_remove_answers` (repair of D5): the registry changed while answers may be queued.  One block per queue
+            # (the two calls of `async_unregister_service` follow each other at the same instant)
+            def async_remove_answers(self_, records):
+                if self_.zc is not zc:
+                    return orig(self_, records)
+                records = list(records)
+                if tr.silenced("rm:%s" % (self_ is zc.out_delay_queue)):
+                    return None
+                rs = set(records)
+                hit = sum(1 for g in self_.queue for a in g.answers if a in rs)  # queued answers this call withdraws (coverage only)
+                own = tr.begin("rm", delayed=self_ is zc.out_delay_queue, recs=[tr.uni.id(r) for r in records], hit=hit)
+                try:
+                    return orig(self_, records)
+                finally:
+                    if own:
+                        tr.end()
+            return async_remove_answers
+
         patch(lst.AsyncListener, "datagram_received", mk_rx)
         patch(lst.AsyncListener, "_respond_query", mk_tc)
         patch(mq.MulticastOutgoingQueue, "async_ready", mk_qf)
+        patch(mq.MulticastOutgoingQueue, "async_remove_answers", mk_rm)
         patch(qh.QueryHandler, "handle_assembled_query", mk_asm)
 
         def on_send(t, src, data, addr):
             if src is not tr.host:
                 return
             # the full sockaddr: for IPv6 (address, port, flowinfo, scope id) -- "to that address" includes the scope of a link-local address
-            rec = dict(t=t + T0, to=(addr[0], addr[1]), to_full=tuple(addr), akey=(addr[0],) + tuple(addr[2:]), data=bytes(data), sock=tr.last_sock)
+            rec = dict(t=t + T0, to=(addr[0], addr[1]), to_full=tuple(addr), akey=(addr[0],) + tuple(addr[2:]), data=bytes(data), sock=tr.last_sock,
+                       call=tr.call_no)
             if tr.cur is None:
                 tr.orphans.append(rec)
             else:
@@ -242,6 +280,16 @@ class Trace:
             return sendto
 
         patch(vsim.FakeTransport, "sendto", mk_sendto)
+
+        def mk_send(orig):
+            def async_send(self_, out, *a, **kw):
+                if self_ is zc:
+                    tr.call_no += 1
+                return orig(self_, out, *a, **kw)
+            return async_send
+
+        import zeroconf._core as core
+        patch(core.Zeroconf, "async_send", mk_send)
 
     def uninstall(self):
         for cls, name, orig in reversed(self.saved):
@@ -279,7 +327,12 @@ def parse_query(zc, uni, data, now, scope=None):
             kept = qh._answer_question(q, s.strategy_type, s.types, s.services, DNSRRSet(list(ans)))
             cands = [(uni.id(r), int(r.ttl), sorted(uni.id(a) for a in adds), r not in kept) for r, adds in ans.items()]
             items.append((bool(q.unique), cands))
-    known = [(uni.id(r), int(r.ttl)) for r in m.answers()]
+    # known answers are numbered as the responder compares them with its own records: a tree with the C03 repair of scoped known
+    # answers (`_without_scope_id` in query_handler.py) drops the scope id an IPv6 socket stamps on AAAA records first; the
+    # unrepaired tree compares them as parsed (the harness follows whichever tree it runs on)
+    import zeroconf._handlers.query_handler as _qh
+    _strip = getattr(_qh, "_without_scope_id", None)
+    known = [(uni.id(_strip(r) if _strip else r), int(r.ttl)) for r in m.answers()]
     pkt = dict(now=int(now), id=m.id, flags=m.flags, num_auth=m._num_authorities, nq=len(m._questions),
                q0type=m._questions[0].type if m._questions else 0, items=items, known=known,
                questions=[(q.name, q.type, q.class_, bool(q.unique)) for q in m._questions])
@@ -320,6 +373,8 @@ def block_line(tr, zc, b):
         return "tc %d %d %s %s" % (b["t"], tr.addr_id(b["akey"]), seen_str(seen), draws_str(b["draws"]))
     if b["kind"] == "qf":
         return "qf %d %s" % (b["t"], C.b01(b["delayed"]))
+    if b["kind"] == "rm":
+        return "qr %d %s %s" % (b["t"], C.b01(b["delayed"]), C.natlist(b["recs"]))
     raise ValueError(b["kind"])
 
 
@@ -470,23 +525,44 @@ def build_long_query(rng, infos, uni, qid):
     return datas
 
 
+def is_goodbye(data):
+    """a response whose records all carry TTL 0 (what the unregister task broadcasts, outside any block of the responder)"""
+    from zeroconf._protocol.incoming import DNSIncoming
+
+    m = DNSIncoming(data)
+    rs = m.answers()
+    return bool(rs) and not m.is_query() and all(r.ttl == 0 for r in rs)
+
+
 def sighting_gaps(tr, maxdelay=20):
     """An assumption check that does not read the cache the way the code does: a record the host *itself* multicast (answer
     or additional; the datagram loops back) must be in the cache snapshot of every later assembly while its TTL runs, stamped
     no earlier than one second before that transmission (an identical datagram inside a second is not re-stamped: C16).
     A host whose own transmissions no longer reach its cache would silently disable the one-second and quarter-TTL rules.
     -> list of (record id, sent at, assembly at, snapshot entry)"""
+    from zeroconf._protocol.incoming import DNSIncoming
+
     sent = []
     probs = []
     flushes = []  # a later cache-flush record of the same name/type/class (RFC 6762 10.2) legitimately expires the entry
+    goodbyes = []  # (time, record id): the host withdrew the record itself (TTL 0, sent by the unregister task outside any block)
+    for o in tr.orphans:
+        for r in DNSIncoming(o["data"]).answers():
+            if r.ttl == 0:
+                goodbyes.append((o["t"], tr.uni.id(r)))
     for b in tr.blocks:
         if b.get("asm"):
             seen = {i: (c, ttl) for (i, c, ttl) in b["asm"]["seen"]}
             c = b["t"]
             for (rid, s, ttl) in sent:
                 r0 = tr.uni.recs[rid]
-                flushed = any(f > s and k == (r0.key, r0.type, r0.class_) and fr != rid for (f, k, fr) in flushes)
-                if s + maxdelay < c < s + 1000 * ttl and not flushed and not any(pt >= s - 1000 and pr == rid for (pt, pr) in tr.pokes):
+                flushed = any(f > s and k == (r0.key, r0.type, r0.class_) and fr != rid for (f, k, fr) in flushes) or \
+                    any(s <= g <= c and gr == rid for (g, gr) in goodbyes)
+                # a transmission less than a second after another one of the same record may be the identical datagram again: the
+                # duplicate guard then drops its loop-back and the stamp (and the TTL's start) is the earlier one's
+                shadowed = any(r2 == rid and s - 1000 < s2 < s for (r2, s2, _t2) in sent)
+                if (s + maxdelay < c < s + 1000 * ttl and not flushed and not shadowed
+                        and not any(pt >= s - 1000 and pr == rid for (pt, pr) in tr.pokes)):
                     e = seen.get(rid)
                     if e is None or e[0] < s - 1000:
                         probs.append((rid, s - T0, c - T0, e))
